@@ -12,6 +12,22 @@ import json
 import random
 import vlib
 
+META = {
+    "category": "model_checking",
+    "text": "TLC model-checks a code-shaped model of the future (mutex respected) against the property "
+            "invariants, then enumerates every gate-point interleaving of the lock-agnostic variant; each "
+            "interleaving is forced on the real code through verif-tagged gate points and the observable "
+            "history (call / callback-ran / return) is validated by TLC against the abstract FutureHist "
+            "spec. Schedules are the quantifier of this property, so schedule enumeration + trace "
+            "validation is the right level.",
+    "design_ref": "DESIGN.md section 4, C42",
+    "level_note": "Trusted: the gate hooks only delay goroutines; the harness's call/ran/ret events are emitted "
+                  "before the call, inside the callback and after the return. 3-thread schedules are sampled in "
+                  "quick and exhaustive (then shuffled, first 6000) in thorough; ThenCompose chains use random "
+                  "gate schedules.",
+    "technique": "TLA+ spec + TLC schedule enumeration, forced replay on real code, TLC trace validation",
+}
+
 
 def run(ctx):
     r = ctx.tlc("Future")
